@@ -19,4 +19,4 @@ def run(ctx):
         select=lambda e: len(e['to']['snaps']) > 0,
         meta_rule='every transition in states with >= 1 snapshot executed via its shortest prefix on 3 overlay constructions + random walks',
         assumptions=['MutableTagsOverlayWorld takes part on histories of AddTag and Snapshot only (it has no other edit operation)'],
-        focused=(150, 2000))
+        focused=(150, 800))
